@@ -1,3 +1,4 @@
+import Grexv.Lemmas.SortCases
 import Grexv.Props.C01
 import Grexv.Props.C16
 
